@@ -1,6 +1,6 @@
 """C02 configuration for ./check (see checks/propcfg.py for the keys)."""
 CFG = {
-    "modules": ["VaxisModel.Props.C02", "VaxisModel.Props.C02Acts", "VaxisModel.Props.C02Text", "VaxisModel.Props.C02Refine", "VaxisModel.Witness.F102"],
+    "modules": ["VaxisModel.Props.C02", "VaxisModel.Props.C02Acts", "VaxisModel.Props.C02Text", "VaxisModel.Props.C02Refine", "VaxisModel.Props.C02Stdlib", "VaxisModel.Witness.F102"],
     "extractors": ["C02"],
     "drivers": ["C02"],
     "trivial_prefix": ("Z",),
